@@ -31,9 +31,13 @@ PI = math.pi
 def gen_trans(rng, n, flavour):
     if flavour == 'typical':
         return [rng.gauss(0, 10) for _ in range(n)]
-    c = rng.choice(['zero', 'negzero', 'huge', 'tiny', 'int', 'mixed'])
+    c = rng.choice(['zero', 'negzero', 'huge', 'tiny', 'int', 'mixed', 'axis'])
     if c == 'zero':
         return [0.0] * n
+    if c == 'axis':          # exactly on one coordinate axis, e.g. a sensor mounted straight above the vehicle: (0, 0, h)
+        v = [0.0] * n
+        v[rng.randrange(n)] = rng.choice([1.0, -2.5, rng.gauss(0, 3)])
+        return v
     if c == 'negzero':
         return [-0.0] * n
     if c == 'huge':
@@ -48,9 +52,9 @@ def gen_trans(rng, n, flavour):
 def gen_angle(rng, flavour):
     if flavour == 'typical':
         return rng.uniform(-PI, PI)
-    c = rng.choice(['pi', '-pi', 'pi-', '-pi+', 'pi+', 'big', 'zero', 'halfpi', 'multiple'])
+    c = rng.choice(['pi', '-pi', 'pi-', '-pi+', 'pi+', 'big', 'zero', 'halfpi', '-halfpi', '3halfpi', 'multiple'])
     return {'pi': PI, '-pi': -PI, 'pi-': math.nextafter(PI, 0), '-pi+': math.nextafter(-PI, 0),
-            'pi+': math.nextafter(PI, 4), 'big': rng.uniform(-1e6, 1e6), 'zero': 0.0, 'halfpi': PI / 2,
+            'pi+': math.nextafter(PI, 4), 'big': rng.uniform(-1e6, 1e6), 'zero': 0.0, 'halfpi': PI / 2, '-halfpi': -PI / 2, '3halfpi': 3 * PI / 2,
             'multiple': PI * rng.randint(-9, 9)}[c]
 
 
